@@ -946,8 +946,12 @@ def mon_c14(spec, run):
         vq = [e for e in tr if e["k"] == "write" and bytes.fromhex(e["data"]) == b"@SYS:VERSION=?\r\n" and e["seq"] < r0["seq"]]
         vl = [x for x in read_lines(tr) if x[2].startswith("@SYS:VERSION=") and x[0] < r0["seq"]]
         rf = [e for e in tr if e["k"] == "read_fault" and e["seq"] < r0["seq"]]
-        if rf:
-            bad.append(("returned-normally", f"initialize() returned normally although the link failed at t={rf[0]['t'] / 1e6:.3f}s, before it returned (accessors set: {sorted(r0['state'])})"))
+        if rf and len(vl) < len(vq):
+            bad.append(("returned-normally", f"initialize() returned normally although the link failed at t={rf[0]['t'] / 1e6:.3f}s, before it returned, with only {len(vl)} of its {len(vq)} "
+                                             f"synchronisation queries answered (accessors set: {sorted(r0['state'])})"))
+        elif rf:
+            pass        # every step had completed (all synchronisation replies were read) when the failure was read at the same instant: the
+            #             failure came after the last step; it is reported through the disconnect callback (C15), not by initialize()
         elif len(vl) < len(vq):
             bad.append(("returned-normally", f"initialize() returned normally although only {len(vl)} of its {len(vq)} synchronisation queries were answered (the device went silent); accessors set: {sorted(r0['state'])}"))
         return bad
